@@ -676,7 +676,7 @@ def _worker_init():
 
 def main():
     t0 = time.time()
-    SCRATCH[0] = tempfile.mkdtemp(prefix='pytough-', dir='/var/tmp')
+    SCRATCH[0] = tempfile.mkdtemp(prefix='pytough-', dir=os.environ.get('PYTOUGH_SCRATCH', '/var/tmp'))
     signal.signal(signal.SIGTERM, lambda *a: sys.exit(1))      # so that the scratch directory goes even when killed
     rnd = random.Random(seed)
     tasks = gen_tasks(rnd)
